@@ -38,7 +38,12 @@ def src_of(lines):
 
 
 def do_trace(lines):
+    """real parse()+emit() of the script; -> calls of _parse_simple_lines, exception kind, emitted
+    text, and the lines the env-guarded hook (_VERIF_IGNORED, REDUINO_VERIF=1) reports as skipped"""
     del TRACE[:]
+    hook = getattr(P, "_VERIF_IGNORED", None)
+    if hook is not None:
+        del hook[:]
     exc = None
     cpp = None
     try:
@@ -48,11 +53,13 @@ def do_trace(lines):
             cpp = emit(prog)
         except BaseException as e:  # noqa
             exc = "emit:" + type(e).__name__
-        return {"trace": tr, "exc": exc, "cpp": cpp}
     except _Timeout:
         raise
     except BaseException as e:  # noqa
-        return {"trace": [list(t) for t in TRACE], "exc": type(e).__name__, "cpp": None}
+        tr = [list(t) for t in TRACE]
+        exc = type(e).__name__
+    ign = None if hook is None else [[SCOPES.get(a, 9), b, c, d] for (a, b, c, d) in hook]
+    return {"trace": tr, "exc": exc, "cpp": cpp, "ignored": ign}
 
 
 def span(fn, lines, start):
